@@ -315,6 +315,7 @@ def hierarchy_order(ctx):
     and round-trips, otherwise a higher key stops covering a lower attribute."""
     from . import c03, c13
     c03.dict_remove_shifts(ctx)
+    c03.add_keeps_rank_order(ctx)
     c03.rename_keeps_id(ctx)
     c13.restricted(ctx, r'(dimension::Dimension|AccessStructure)$', [c13.agree, c13.order])
 
